@@ -21,6 +21,8 @@ for n in sorted(os.listdir(root)):
     viol = [l.strip() for l in res.splitlines() if l.startswith('  ') or l.startswith('VIOLATION')][:4]
     outcome = {1: 'caught: VIOLATION reported', 0: 'MISSED: check passed', 2: 'noticed only: INCONCLUSIVE (exit 2)'}.get(rc, 'not run against the current tree')
     notes = ''
+    if 'stopped by me' in res:
+        outcome = 'NO VERDICT: the run on the changed tree was stopped before it finished (see check_result.txt, DESIGN 12.7 round 3)'
     if os.path.exists(os.path.join(d, 'obsolete.txt')):
         notes = open(os.path.join(d, 'obsolete.txt')).read().strip()
         outcome = 'obsolete on the current tree'
@@ -31,7 +33,7 @@ for n in sorted(os.listdir(root)):
         'needs_to_manifest': am.get('needs', ''),
         'produced_by': 'a fresh sub-agent given only the property text and its own scratch worktree of /repo',
         'confirmed_by_me': [
-            'in the scratch worktree /tmp/mut-<property>: demo/run_demo.sh passes on the unchanged tree (exit 0)',
+            'in the scratch worktree /tmp/mut-<property> (round 2: /tmp/mut2-, round 3: /tmp/mut3-): demo/run_demo.sh passes on the unchanged tree (exit 0)',
             'git apply patch; go build ./... (exit 0); go test -vet=off -count=1 ./... (all packages ok)',
             'demo/run_demo.sh fails with the patch applied (exit != 0)',
             'worktree reset afterwards (tools/confirm_mutant.sh)',
